@@ -185,9 +185,6 @@ def hist : List (RenOp ℚ) :=
     .call (.startPath 0 (-16) 8), .call (.d2 .l 3 4), .call .closeEnd,
     .call (.setNReg 0 false 7) ]
 
-def cs : List (Call ℚ) :=
-  [ .reset ⟨-32, -32, 32, 32⟩ defaultPalette ]
-
 /-- register-loading calls after the second `SetRasterizer` (no `Reset`) -/
 def load : List (Call ℚ) :=
   [ .setCSel 10, .setCReg 0 true (Color.rgbaColor ⟨0, 0, 0, 0xff⟩), .setCReg 0 true (Color.rgbaColor ⟨0, 0, 0, 0⟩),
@@ -207,6 +204,26 @@ theorem gradient_path_enabled :
     (zAfter.startPath 0 0 0).1.disabled = false ∧
     (match (zAfter.startPath 0 0 0).1.fill with | .gradient _ => true | _ => false) = true := by
   decide +kernel
+
+/-- … and the gradient's matrix is the one of the NEW rectangle (128 wide: `NREG[4]·(64/128) = 1/128`), not
+    of the 64×64 one the same Renderer drew into before (which would give `1/64`) -/
+theorem gradient_path_matrix :
+    (match (zAfter.startPath 0 0 0).1.fill with
+     | .gradient g => decide (g.pix2Grad.a = 1 / 128 ∧ g.pix2Grad.c = 0)
+     | _ => false) = true := by
+  decide +kernel
+
+theorem gradient_path_fill : ∃ g, (zAfter.startPath 0 0 0).1.fill = .gradient g := by
+  have h := gradient_path_enabled.2
+  revert h
+  cases (zAfter.startPath 0 0 0).1.fill with
+  | flat c => intro h; cases h
+  | gradient g => intro _; exact ⟨g, rfl⟩
+
+/-- at exact arithmetic the zero value happens to satisfy the invariant (`0/0 = 0` in `ℚ`); at float32 it
+    does not (`RenderHist.Ex.zero_not_transformOK`) -/
+theorem zero_transformOK : TransformOK (Renderer.zero : Renderer ℚ ℚ) := by
+  refine ⟨?_, ?_, ?_, ?_⟩ <;> simp [Renderer.zero, zeroA, Rect.dx, Rect.dy]
 
 end Ex
 
